@@ -157,8 +157,9 @@ def eqNum (a b : Val) : Val :=
   | .int _ x, .int _ y => mkBool (x = y)
   | _, _ => mkBool (a.toFloat == b.toFloat)
 
-/-- `assign(t)`: an untyped constant adopts the destination type; nil adopts a nillable type;
-    everything else is unchanged -/
+/-- `assign(t)`: an untyped constant adopts the destination type, and so does a float64 that reaches an
+    integer slot (it can only be a float-spelled constant); nil adopts a nillable type; everything else
+    is unchanged -/
 def assign (v : Val) (t : Nat) : Val :=
   if v.tag = t then v
   else if v.tag = tUntyped then
@@ -168,6 +169,10 @@ def assign (v : Val) (t : Nat) : Val :=
     else if t = tI8 then .int t (wrapS 8 v.toInt)
     else if t = tU8 then .int t (wrapU 8 v.toInt)
     else .int tI32 (wrapS 32 v.toInt)
+  else if v.tag = tF64 ∧ (t = tI32 ∨ t = tU32 ∨ t = tI8 ∨ t = tU8) then
+    -- a float64 reaches an integer slot only as a constant (1e6, 2.0): it takes the slot's type
+    (if t = tI32 then .int t (wrapS 32 v.toInt) else if t = tU32 then .int t (wrapU 32 v.toInt)
+     else if t = tI8 then .int t (wrapS 8 v.toInt) else .int t (wrapU 8 v.toInt))
   else if v.tag ≠ tNil then v
   else if t ≥ nillableMin then .int t 0
   else .int tNil 0
